@@ -111,6 +111,8 @@ def run(ctx):
                 n.lineno,
             )
     marker_rows_in_final_transaction(r1, repo, nonempty_ok)
+    r5 = ctx.rule("C03.5", "a call node left without subtree rows is completed by the next recording (or the CSE reader refuses the empty set)", floor=1)
+    subtree_repair_obligation(r5, repo)
     # subtree rows for one call node are written in one transaction
     rc = db.func("RedunBackendDb.record_call_node")
     loops = [st for st in ast.walk(rc) if isinstance(st, ast.For) and any(call_name(c) == "CallSubtreeTask" for c in calls_in(st))]
@@ -272,46 +274,41 @@ def marker_rows_in_final_transaction(rule, repo, nonempty_ok=None):
             if not subs:
                 continue
             n_sites += 1
-            if not _commits_between(mod, fn, n, subs[-1], commits):
-                rule.good(f"{mod.rel}:{cq}:subtree-marker", "atomic writer")
-                continue
-            # a row added inside a loop that also contains a commit point is committed by the next iteration
-            in_loop = []
-            for c in subs:
-                lp = mod.parent.get(c)
-                while lp is not None and lp is not fn and not isinstance(lp, (ast.For, ast.While)):
-                    lp = mod.parent.get(lp)
-                if isinstance(lp, (ast.For, ast.While)):
-                    inner = expr_commits(lp, commits)
-                    if inner:
-                        in_loop.append((c, inner))
-            if in_loop:
-                rule.violation(
-                    f"{mod.rel}:{cq}:subtree-marker",
-                    f"the CallSubtreeTask rows are added in a loop (line {in_loop[0][0].lineno}) whose body also reaches {', '.join(sorted(set(in_loop[0][1])))}: each commit makes the rows added so far durable, so an "
-                    "interrupted or retried recording leaves a call node with a non-empty but partial subtree set, which passes _get_call_node's `recorded set is non-empty` guard and is replayed by ultimate "
-                    "reduction even after a task whose row is missing was edited",
-                    mod.rel,
-                    in_loop[0][0].lineno,
-                )
-                continue
-            early = []
-            for c in subs:
-                later = [x for x in _commits_after(mod, fn, c, commits)]
-                if len(later) > 0 and _commits_between(mod, fn, c, subs[-1], commits):
-                    early.append((c, _commits_between(mod, fn, c, subs[-1], commits)))
+            # path-sensitive: a row added at A is made durable too early when a commit point C is reachable from A and another add B (possibly A
+            # itself, through a loop) is reachable from C.  Adds on mutually exclusive arms (new node / completing an existing one) do not interact.
+            wcfg = CFG(fn)
+            def _own(nd):
+                return nd.kind in ("stmt", "test") and nd.ast is not None and not isinstance(nd.ast, (FuncNode, ast.ClassDef, ast.Try, ast.If, ast.For, ast.While, ast.With))
+            add_nodes = [nd for nd in wcfg.nodes if _own(nd) and any(isinstance(c, ast.Call) and call_name(c) in ("CallSubtreeTask", "db.CallSubtreeTask") for c in ast.walk(nd.ast))]
+            commit_nodes = [nd for nd in wcfg.nodes if _own(nd) and expr_commits(nd.ast, commits)]
+            for nd in wcfg.nodes:
+                if nd.kind in ("stmt", "test") and isinstance(nd.ast, (ast.For,)) and expr_commits(nd.ast.iter, commits):
+                    commit_nodes.append(nd)
+            early = None
+            for a in add_nodes:
+                after_a = wcfg.reachable(a)
+                for c in commit_nodes:
+                    if c is a or c not in after_a:
+                        continue
+                    after_c = wcfg.reachable(c)
+                    if any(b in after_c and b is not c for b in add_nodes):
+                        early = (a, c)
+                        break
+                if early:
+                    break
             rule.check(
-                not early,
+                early is None,
                 f"{mod.rel}:{cq}:subtree-marker",
                 (
-                    f"the CallSubtreeTask row added at line {early[0][0].lineno} is committed by {', '.join(sorted(set(early[0][1])))} before the remaining subtree rows are written: "
+                    f"the CallSubtreeTask row added at line {early[0].lineno} is committed by {', '.join(sorted(set(expr_commits(early[1].ast if not isinstance(early[1].ast, ast.For) else early[1].ast.iter, commits))))} "
+                    f"(line {early[1].lineno}) before the remaining subtree rows are written: "
                     "an interrupted or retried recording leaves a call node with a non-empty but partial subtree set, which passes _get_call_node's `recorded set is non-empty` guard and is "
-                    "replayed by ultimate reduction even after a child task was edited"
+                    "replayed by ultimate reduction even after a task whose row is missing was edited"
                 )
                 if early
                 else "",
                 mod.rel,
-                early[0][0].lineno if early else n.lineno,
+                early[0].lineno if early else n.lineno,
             )
     if n_sites < 1:
         raise AnalysisError("no CallNode writer that also writes CallSubtreeTask rows found", "CallSubtreeTask")
@@ -344,3 +341,35 @@ def _commits_between(mod, fn, first: ast.AST, last: ast.AST, commits) -> list[st
             if lo < pos < hi:
                 out += expr_commits(st, commits)
     return out
+
+
+def subtree_repair_obligation(rule, repo):
+    """C03.5: the scheduler reads a call node's recorded subtree set in two places: _get_call_node (which refuses empty sets) and
+    Scheduler._get_subtree_tasks, used for same-execution (CSE) hits, which takes whatever is there.  A node left without rows -- an interrupted
+    recording (known finding C22.1) or a node imported by `redun pull` (subtree rows are not transferred) -- is never completed, because
+    record_call_node skips an existing node; a CSE hit on it then contributes an empty set, the enclosing job is recorded with a subtree set that
+    lacks everything beneath that call, and a later edit there is ignored by the enclosing job's shallow replay.  Either the CSE reader refuses an
+    empty set, or record_call_node completes a node that exists without subtree rows."""
+    db = repo.mod(DB)
+    m = repo.mod(SCHED)
+    rc = db.func("RedunBackendDb.record_call_node")
+    cfg = CFG(rc)
+    repairs = False
+    for n in cfg.nodes:
+        if n.kind == "stmt" and n.ast is not None and any(isinstance(c, ast.Call) and call_name(c) in ("CallSubtreeTask", "db.CallSubtreeTask") for c in ast.walk(n.ast)) and not isinstance(n.ast, (ast.For, ast.If, ast.With, ast.Try)):
+            facts = facts_at(cfg, n)
+            exists_arm = any("query(CallNode)" in f and t for f, t in facts)
+            no_rows = any("query(CallSubtreeTask)" in f and not t for f, t in facts)
+            if exists_arm and no_rows:
+                repairs = True
+    gst = m.func("Scheduler._get_subtree_tasks")
+    reader_guard = any(isinstance(t, ast.If) and "subtree_task_hashes" in src(t.test) and ("not " in src(t.test) or "len(" in src(t.test)) for t in ast.walk(gst))
+    rule.check(
+        repairs or reader_guard,
+        f"{db.rel}:RedunBackendDb.record_call_node:completes-node-without-subtree-rows",
+        "a call node that exists without CallSubtreeTask rows (interrupted recording, or imported by pull) is never completed -- record_call_node skips an existing node -- and "
+        "Scheduler._get_subtree_tasks takes the empty set at face value on a same-execution (CSE) hit: repo B pulls leaf(1) from repo A and runs second(first(1), 1) where both call leaf(1); "
+        "`second` (check_valid=shallow) is recorded without leaf in its subtree set and, after leaf is edited, B.run(second(2, 1)) replays the stale result",
+        db.rel,
+        rc.lineno,
+    )
